@@ -161,6 +161,15 @@ def run(cr: CheckRun) -> None:
             if act in cov and cov[act][1] == 0:
                 raise MachineryError(f"vacuity: {act} never taken ({ph})")
         cr.add_tlc(cfg, res)
+    if not quick:
+        # the complete reachable state space (positions modulo 2, no depth bound): runs of every length, nesting <= 2
+        for name in ("all_end_fw", "all_end_ack", "all_start_fw", "all_start_ack"):
+            cfg = f"MCInterrupts_{name}.cfg"
+            res = run_tlc(SD, "MCInterrupts", cfg, workers=vlib.NCPU, tag="C12-" + cfg, timeout=3400, heap="12g")
+            if res.invariant_violated:
+                raise MachineryError(f"Interrupts model ({name}) violates {res.invariant_violated}")
+            tlc_expect_ok(res, cfg)
+            cr.add_tlc(cfg, res)
     cr.mark("tlc")
     # spec -> code: TLC behaviours of the abstract machine are schedules (instruction stream + events) for the real machines
     vals, res = vlib.dump_behaviours(SD, "MCInterrupts", "MCInterrupts_replay.cfg", "C12", var="acts", coverage=False)
